@@ -506,8 +506,8 @@ def make_cases(ctx):
     thin = [(5,), (9,), (6, 1), (1, 7), (4, 1, 1), (1, 5, 1), (1, 1, 6), (12,), (1, 40), (40, 1)]
     combos = list(itertools.product(("newton", "bregman"), MOB, L1))
     rng.shuffle(combos)
-    n_general = ctx.pick(24, 100)
-    n_thin = ctx.pick(24, 100)
+    n_general = ctx.pick(16, 100)
+    n_thin = ctx.pick(20, 100)
     for i in range(n_general + n_thin):
         is_thin = i >= n_general
         shape = rng.choice(thin if is_thin else general)
